@@ -155,7 +155,9 @@ def eff_blocks(x):
     for s, b in x.blocks.items():
         b = np.asarray(b)
         if ph.get(s, 1) == -1:
-            b = -b
+            # a boolean block cannot be negated by numpy: its signed value
+            # is still well defined for the observer
+            b = -(b.astype("int8")) if b.dtype.kind == "b" else -b
         out[norm_charge(s)] = b
     return out
 
